@@ -294,8 +294,24 @@ func genC20Driver(t *rapid.T) bson.D {
 			{{Key: "$pop", Value: bson.D{{Key: "_id", Value: int32(1)}}}},
 		}).Draw(t, "idupdate")
 	}
+	// a filter aimed at the fields of the listing documents
+	listFilter := bson.D{}
+	for i, n := 0, rapid.IntRange(1, 2).Draw(t, "nlf"); i < n; i++ {
+		k := rapid.SampledFrom([]string{"name", "sizeOnDisk", "empty", "type", "options", "info", "info.readOnly", "info.uuid", "idIndex", "idIndex.v", "idIndex.key", "idIndex.key._id", "idIndex.name", "idIndex.namespace"}).Draw(t, "lfk")
+		var v interface{}
+		switch rapid.IntRange(0, 2).Draw(t, "lfv") {
+		case 0:
+			v = gen.HostileValue(1).Draw(t, "lfval")
+		case 1:
+			v = bson.D{gen.NearValidExpr().Draw(t, "lfexpr")}
+		default:
+			v = bson.D{{Key: rapid.SampledFrom([]string{"$gte", "$lt", "$ne", "$in", "$type", "$mod", "$bitsAllSet", "$exists"}).Draw(t, "lfop"), Value: rapid.SampledFrom([]interface{}{int32(0), int64(2), float64(1), "x", bson.A{int32(0), int32(2)}, bson.A{int32(2), int32(0)}, true, "number"}).Draw(t, "lfarg")}}
+		}
+		listFilter = append(listFilter, bson.E{Key: k, Value: v})
+	}
 	return bson.D{
 		{Key: "docs", Value: docs},
+		{Key: "listFilter", Value: listFilter},
 		{Key: "filter", Value: gen.HostileFilter(2).Draw(t, "filter")},
 		{Key: "update", Value: update},
 		{Key: "afs", Value: bson.A{gen.HostileFilter(1).Draw(t, "af1")}},
@@ -414,6 +430,21 @@ func runC20Driver(c bson.D, x *Ctx) error {
 			_, err := coll.InsertMany(ctx, append(append([]interface{}{bson.D{{Key: "_id", Value: "im-1"}}}, docs...), bson.D{{Key: "_id", Value: "im-1"}}, bson.D{{Key: "_id", Value: "im-2"}}), options.InsertMany().SetOrdered(true))
 			return err
 		})
+		// the listings accept filters too; theirs run over generated documents
+		// with the fields name / sizeOnDisk / empty and name / type / options /
+		// info / idIndex
+		lf := asD(getD(c, "listFilter"))
+		run("ListDatabases", func() error { _, err := env.client.ListDatabases(ctx, freshD(lf)); return err })
+		run("ListDatabaseNames", func() error { _, err := env.client.ListDatabaseNames(ctx, freshD(filter)); return err })
+		run("ListCollections", func() error {
+			cur, err := env.client.Database("d1").ListCollections(ctx, freshD(lf))
+			if err != nil {
+				return err
+			}
+			var out []bson.M
+			return cur.All(ctx, &out)
+		})
+		run("ListCollectionNames", func() error { _, err := env.client.Database("d1").ListCollectionNames(ctx, freshD(filter)); return err })
 		run("DeleteMany", func() error { _, err := coll.DeleteMany(ctx, freshD(filter)); return err })
 		run("FindOneAndDelete", func() error {
 			var d bson.D
